@@ -25,7 +25,9 @@ def run_with_scenarios(mod, ctx):
     S.reset()
     set_zero_atoms(())
     mod.run(ctx)
-    alts = list(S.alts)
+    # a site whose special outcome is already exercised with consistent (zero-specialised) data is not ALSO forced with generic
+    # data: the forced combination (special branch + generic values) is contradictory there and only produces noise
+    alts = [a for a in S.alts if not (a[0] == "force" and a[1] in S.zero_sites)]
     ctx.notes["default_decided_conditions"] = S.decisions
     ctx.notes["alternative_scenarios"] = [_alt_label(a) for a in alts[:MAX_ALTS]]
     skipped = []
@@ -61,6 +63,13 @@ def run_with_scenarios(mod, ctx):
     S.mode = "generic"
     if skipped:
         ctx.notes["alternative_scenarios_not_analysable"] = skipped[:10]
+        # A zero-specialised alternative is a consistent input (e.g. "the i and j planes are zero") that takes a branch the generic
+        # run does not take.  If that branch cannot be analysed the property is NOT decided for those inputs: fail closed (exit 2)
+        # instead of passing on the strength of the generic run alone.  (Forced alternatives pair a branch with generic, possibly
+        # contradictory data; failing to analyse those is not held against the code.)
+        hard = [x for x in skipped if x.startswith("zero ")]
+        if hard and not ctx.findings:
+            raise AnalysisError("data-dependent branch not analysable for the specialised input: " + hard[0][:300])
 
 
 def run_selftest(prop, ctx):
